@@ -546,3 +546,29 @@ Proof.
   - exact D.
   - intro X. apply na_finalized, eqv_eqv_na. auto.
 Qed.
+
+(* transfer: whatever holds of the uninterrupted node's store and does not depend on the finalized record (stored set, best
+   pointer, quality records = vote tallies, every block's data) holds of the resumed node's store; whatever holds of it at
+   all holds of the resumed node's once the uninterrupted node's finalized block has moved *)
+Corollary resumed_node_inherits c s0 hist k i (P : store -> Prop) :
+  wf_cfg2 c -> Inv2 c s0 -> InvQ c s0 -> wf_hist c s0 hist -> no_bft_reject c s0 hist = true ->
+  cut_in_import c s0 hist k i ->
+  (forall a b, eqv_nf a b -> P b -> P a) -> P (run c s0 hist) ->
+  exists r, resume c true (crash c s0 hist k) (skipn i hist) = Some r /\ P r.
+Proof.
+  intros Hc I0 Q0 Hw Hn Hcut HP Hrun.
+  destruct (resume_catches_up c s0 hist k i Hc I0 Q0 Hw Hn Hcut) as (r & Hr & [NF _ _] & _).
+  exists r. split; auto. eapply HP; eauto.
+Qed.
+
+Corollary resumed_node_inherits_all c s0 hist k i (P : store -> Prop) :
+  wf_cfg2 c -> Inv2 c s0 -> InvQ c s0 -> wf_hist c s0 hist -> no_bft_reject c s0 hist = true ->
+  cut_in_import c s0 hist k i ->
+  finalized c (run c s0 hist) <> finalized c (run c s0 (firstn (S i) hist)) ->
+  (forall a b, eqv a b -> P b -> P a) -> P (run c s0 hist) ->
+  exists r, resume c true (crash c s0 hist k) (skipn i hist) = Some r /\ P r.
+Proof.
+  intros Hc I0 Q0 Hw Hn Hcut Hmv HP Hrun.
+  destruct (resume_catches_up c s0 hist k i Hc I0 Q0 Hw Hn Hcut) as (r & Hr & _ & E).
+  exists r. split; auto. eapply HP; eauto.
+Qed.
